@@ -245,7 +245,7 @@ const LOC_WORDS: &[&[&str]] = &[
 ];
 const PREFIX_LOC_WORDS: &[&[&str]] = &[&["english", "francais", "deutsch", "italiano", "espanol", "portugues"]];
 const SUFFIXES: &[&str] = &["glish", "x", "-X", "s", "tem", ".html", "-"];
-const SEARCHES: &[&str] = &["", "a=1", "q=en&lang=fr", "x=%2Fen%2F&y", "redirect=/fr/x"];
+const SEARCHES: &[&str] = &["", "a=1", "q=en&lang=fr", "x=%2Fen%2F&y", "redirect=/fr/x", "?a=1", "?", "??x", "a=?&b=%23", "&", "=", "a=1&"];
 const BARE_HASHES: &[&str] = &["", "top", "a/b", "en"];
 const BROWSER_HASHES: &[&str] = &["#top", "#/en/x", "#a?b"];
 const CORE_BASES: &[&str] = &["/", "/app/", "/a/b/"];
